@@ -2,7 +2,7 @@
 ARENA = dict(harness=['h_arena.cpp'], repo_units=['asmjit/support/arena.cpp'], extra_c=['stubs_arena.c'])
 UNITS = [
     Unit('arena', **ARENA),
-    Unit('nodes', harness=['h_nodes.cpp'], repo_units=['asmjit/support/arena.cpp', 'asmjit/support/arenahash.cpp']),
+    Unit('nodes', harness=['h_nodes.cpp'], repo_units=['asmjit/support/arena.cpp'], extra_c=['stubs_arena.c']),
 ]
 # loops of the arena functions (block chain walks): the chains of the single-block harnesses are at most 2 long
 def arena_loops(n):
@@ -10,6 +10,9 @@ def arena_loops(n):
     return ','.join('%s.%d:%d' % (f, i, n) for f, k in fns.items() for i in range(k))
 def leftover_loops(n):
     return ','.join('_ZN6asmjit5v1_21L34Arena_make_block_leftover_reusableERNS0_5ArenaEPhm.%d:%d' % (i, n) for i in range(2))
+def tree_loops(n):
+    fns = {'_ZL14tree_do_insertRN6asmjit5v1_219ArenaTreeI5TNodeEEPS2_': 8, '_ZL14tree_do_removeRN6asmjit5v1_219ArenaTreeI5TNodeEEPS2_': 10, '_ZL11tree_do_getRN6asmjit5v1_219ArenaTreeI5TNodeEEj': 1}
+    return ','.join('%s.%d:%d' % (f, i, n) for f, k in fns.items() for i in range(k))
 B_ONE = 'one 128-byte heap block, 8-aligned cursor symbolic, block-size shift 7'
 B_CHAIN = 'chain of 1..3 heap blocks (payload 128/64/256), current block and 8-aligned cursor symbolic, block-size shift 7..8'
 HARNESSES = [
@@ -25,8 +28,15 @@ HARNESSES = [
     Harness('arena', 'h_arena_dup', unwind=26, unwindset=arena_loops(3), bounds='one 128-byte block with 24 bytes left; 24 symbolic bytes, (size, terminator) in {0,1,7,8,16,23,24} x {no,yes} (11 combinations), null source', mem_gb=4, timeout=600),
     Harness('arena', 'h_arena_string', unwind=27, unwindset=arena_loops(3), bounds='one 128-byte block with 24 bytes left; ArenaString<16>, 24 symbolic characters, size in {0,5,11,12,24} explicit or {0,5,11,12} by strlen', mem_gb=4, timeout=600),
     Harness('arena', 'h_arena_pool', unwind=5, bounds=B_ONE + '; 0..2 pooled items; alloc or release+alloc', mem_gb=4, timeout=600),
-    Harness('nodes', 'h_list_step', unwind=7, bounds='any list of 0..4 of 4 nodes in any order; one of append/prepend/insert_after/insert_before/unlink/pop_first/pop at any position, then swap', mem_gb=3, timeout=600),
-    Harness('nodes', 'h_tree_probe', unwind=8, bounds='probe', mem_gb=3, timeout=600),
+    Harness('nodes', 'h_list_step', unwind=8, bounds='any list of 0..4 of 4 nodes in any order; one of append/prepend/insert_after/insert_before/unlink/pop_first/pop at any position, then swap', mem_gb=3, timeout=600),
+    Harness('nodes', 'h_tree_insert_d2', unwind=17, unwindset=tree_loops(5), bounds='any valid red-black tree of 0..3 nodes (height <= 2), symbolic distinct 32-bit keys and colours; insert of any new key, then lookup of any key', mem_gb=6, timeout=900),
+    Harness('nodes', 'h_tree_remove_d2', unwind=17, unwindset=tree_loops(5), bounds='any valid red-black tree of 1..3 nodes (height <= 2); remove of any node', mem_gb=6, timeout=900),
+    Harness('nodes', 'h_tree_insert_d3', unwind=33, unwindset=tree_loops(6), tiers=('thorough',), bounds='any valid red-black tree of 0..5 nodes (height <= 3); insert of any new key, then lookup of any key', mem_gb=8, timeout=3000),
+    Harness('nodes', 'h_tree_remove_d3', unwind=33, unwindset=tree_loops(6), tiers=('thorough',), bounds='any valid red-black tree of 1..5 nodes (height <= 3); remove of any node', mem_gb=8, timeout=3000),
+    Harness('nodes', 'h_hash_mod', unwind=4, bounds='all 2^32 hash codes x all 129 primes of the table', mem_gb=4, timeout=900),
+    Harness('nodes', 'h_hash_embedded', unwind=61, bounds='embedded single bucket with 0..1 of 4 nodes, symbolic distinct hash codes; insert (incl. the rehash to 29 buckets) / remove of any of 5 nodes / rehash to 11 buckets', mem_gb=6, timeout=900),
+    Harness('nodes', 'h_hash_p11', unwind=61, bounds='11 buckets with 0..4 of 4 nodes, symbolic distinct hash codes (collisions inside); insert / remove of any of 5 nodes / rehash to 41 buckets', mem_gb=6, timeout=900),
+    Harness('nodes', 'h_hash_p29', unwind=61, tiers=('thorough',), bounds='29 buckets with 0..4 of 4 nodes; insert / remove / rehash to 59 buckets', mem_gb=8, timeout=1800),
 ]
 EXPLANATION = 'bounded symbolic execution (CBMC) of the real container code compiled from /repo; one operation from an arbitrary valid pre-state built in the harness, compared with an abstract model (plain arrays)'
 OUTSIDE = []
